@@ -204,3 +204,13 @@ func InScope(rel string, prefixes ...string) bool {
 	}
 	return false
 }
+
+// FullStr prints a node completely (ExprStr cuts at the first line).
+func FullStr(e ast.Node) string {
+	if e == nil {
+		return ""
+	}
+	var b bytes.Buffer
+	printer.Fprint(&b, token.NewFileSet(), e)
+	return b.String()
+}
